@@ -182,4 +182,56 @@ theorem C10_zenith_amplitude (w p q : ℝ) (ps : List (PulseF ℝ)) (I : List (C
         congr 1
         simp only [pulseG, halfIdeal, rhat_zenith]
 
+/-! ### the pattern does not depend on the excitation level (used by C07) -/
+
+/-- multiplying every pulse current by `c` multiplies the vector amplitude by `c` -/
+theorem gvec_smul (env : Env ℝ) (w t p : ℝ) (ps : List (PulseF ℝ)) (I : List (Cx ℝ)) (c : Cx ℝ)
+    (hI : I.length = ps.length) :
+    gvec env w t p ps (I.map (fun i => c * i)) = CV3.smul c (gvec env w t p ps I) := by
+  have h := C10_linear env w t p ps I I c ⟨0, 0⟩ hI hI
+  have hz : List.zipWith (fun i j => c * i + (⟨0, 0⟩ : Cx ℝ) * j) I I = I.map (fun i => c * i) := by
+    clear h hI
+    induction I with
+    | nil => rfl
+    | cons a r ih =>
+      simp only [List.zipWith_cons_cons, List.map_cons, ih]
+      congr 1
+      cx_unfold
+      simp
+  rw [hz] at h
+  rw [h]
+  cx_unfold
+  simp
+
+theorem h12_smul (g0 t p : ℝ) (g : CV3 ℝ) (c : Cx ℝ) : h12 g0 (CV3.smul c g) t p = c * h12 g0 g t p := by
+  unfold h12
+  cx_unfold
+  simp only [Cx.mk.injEq]
+  constructor <;> ring
+
+theorem x34_smul (g0 p : ℝ) (g : CV3 ℝ) (c : Cx ℝ) : x34 g0 (CV3.smul c g) p = c * x34 g0 g p := by
+  unfold x34
+  cx_unfold
+  simp only [Cx.mk.injEq]
+  constructor <;> ring
+
+theorem lin_scale (k9c power : ℝ) (c a : Cx ℝ) (hc : Cx.normSq c ≠ 0) (hP : power ≠ 0) :
+    k9c / (Cx.normSq c * power) * ((c * a).re * (c * a).re + (c * a).im * (c * a).im)
+      = k9c / power * (a.re * a.re + a.im * a.im) := by
+  have hm : (c * a).re * (c * a).re + (c * a).im * (c * a).im = Cx.normSq c * (a.re * a.re + a.im * a.im) := by
+    cx_unfold
+    simp only [Cx.normSq]
+    ring
+  rw [hm]
+  field_simp
+
+/-- **scaling all currents by `c` (hence the power by `|c|²`) leaves the three linear gains, and with them the dBi
+pattern, unchanged** -/
+theorem C10_pattern_scale (k9c g0 power t p : ℝ) (g : CV3 ℝ) (c : Cx ℝ) (hc : Cx.normSq c ≠ 0) (hP : power ≠ 0) :
+    linGains k9c (Cx.normSq c * power) (h12 g0 (CV3.smul c g) t p) (x34 g0 (CV3.smul c g) p)
+      = linGains k9c power (h12 g0 g t p) (x34 g0 g p) := by
+  rw [h12_smul, x34_smul]
+  unfold linGains
+  simp only [lin_scale k9c power c _ hc hP]
+
 end Pmn.Props.C10
